@@ -591,8 +591,29 @@ impl<'a> Exec<'a> {
             }
             return Err(viol(&props, "panic", i, format!("{name} panicked: {msg}")));
         }
-        self.check_accesses(i, step, &pre)?;
+        // an access violation is usually not the only consequence: evaluate the remaining oracles
+        // too and report every property the behaviour contradicts
+        let acc = self.check_accesses(i, step, &pre);
+        let rest = self.attempt_rest(i, step, mask, &out, pre, &pre_mem, &log, cr3_before);
+        match (acc, rest) {
+            (Ok(()), r) => r,
+            (Err(a), Ok(())) => Err(a),
+            (Err(mut a), Err(b)) => {
+                for p in &b.properties {
+                    if !a.properties.contains(p) {
+                        a.properties.push(p.clone());
+                    }
+                }
+                a.detail = format!("{}; consequence ({}): {}", a.detail, b.oracle, b.detail);
+                Err(a)
+            }
+        }
+    }
 
+    #[allow(clippy::too_many_arguments)]
+    fn attempt_rest(&mut self, i: usize, step: &Step, mask: u8, out: &Outcome, pre: RefMmu, pre_mem: &[(u64, Box<[u64; 512]>)], log: &[AllocEv], cr3_before: u64) -> Result<(), Violation> {
+        let w = world();
+        let name = step.opname();
         let is_map = matches!(step, Step::Map { .. } | Step::IdentityMap { .. });
         let is_clean = matches!(step, Step::CleanUp | Step::CleanUpRange { .. });
         let n_alloc = log.iter().filter(|e| matches!(e, AllocEv::Alloc(..))).count() as u32;
@@ -604,10 +625,10 @@ impl<'a> Exec<'a> {
             return Err(viol(&["C09", "C10"], "release-outside-cleanup", i, format!("{name} released {n_dealloc} frame(s)")));
         }
         if is_clean {
-            return self.check_cleanup(i, step, &pre, &pre_mem);
+            return self.check_cleanup(i, step, &pre, pre_mem);
         }
 
-        let mut s = match spec(&pre, step, &log) {
+        let mut s = match spec(&pre, step, log) {
             Ok(s) => s,
             Err(msg) => return Err(viol(&["C09", "C02"], "alloc-count", i, format!("{name}: {msg}"))),
         };
@@ -657,11 +678,11 @@ impl<'a> Exec<'a> {
                 return Err(viol(&["C11"], "flush-token-kind", i, format!("{name} did not return a flush-all token")));
             }
         }
-        self.check_flush(i, step, &s, &out, cr3_before)?;
+        self.check_flush(i, step, &s, out, cr3_before)?;
 
         // memory image
         let failed = out.code != Code::Ok;
-        if let Err((is_table, msg)) = self.image_check(&mut s.after, &pre_mem, &[]) {
+        if let Err((is_table, msg)) = self.image_check(&mut s.after, pre_mem, &[]) {
             let mut props: Vec<&str> = vec![];
             if failed {
                 props.push("C02");
@@ -691,7 +712,7 @@ impl<'a> Exec<'a> {
             }
             }
         }
-        self.record_cell(step, &s, &out, mask);
+        self.record_cell(step, &s, out, mask);
         // probes for rare conditions
         if is_map {
             match out.code {
